@@ -720,10 +720,24 @@ func (r *runner) doStep(ctx context.Context, st *step, lane int) {
 		r.emit(vtr.Rec{"do": "discard", "res": st.Res, "lane": lane})
 		dctx := ctx
 		if st.Cancelled {
-			// the caller gave up on the Discard: its calls to the workers fail
+			// the caller gives up on the Discard while it is in progress: with an interposer plan that fails a
+			// Worker.Discard call, the context is cancelled at that very call (so the call is not retried);
+			// without one, it is cancelled from the start
 			c, cancel := context.WithCancel(ctx)
-			cancel()
 			dctx = c
+			if r.killer != nil {
+				r.killer.mu.Lock()
+				r.killer.onFail = cancel
+				r.killer.mu.Unlock()
+				defer func() {
+					r.killer.mu.Lock()
+					r.killer.onFail = nil
+					r.killer.mu.Unlock()
+					cancel()
+				}()
+			} else {
+				cancel()
+			}
 		}
 		res.Discard(dctx)
 		r.emit(vtr.Rec{"do": "discard-done", "res": st.Res, "lane": lane})
@@ -928,6 +942,7 @@ type killer struct {
 	counts map[string]int
 	nfired int
 	log    []vtr.Rec
+	onFail func()          // called when a "fail" plan fires (a Discard step cancels its own context there)
 	dead   map[string]bool // addresses of killed machines
 	reused int             // calls addressed to a killed machine while a new machine had its address
 }
@@ -1068,6 +1083,9 @@ func (k *killer) RoundTrip(req *http.Request) (*http.Response, error) {
 	switch pl.Phase {
 	case "fail": // the call does not reach the machine (which stays up)
 		k.mu.Lock()
+		if k.onFail != nil {
+			k.onFail()
+		}
 		k.nfired++
 		k.log = append(k.log, vtr.Rec{"method": pl.Method, "ordinal": pl.Ordinal, "phase": pl.Phase, "killed": false})
 		k.mu.Unlock()
